@@ -345,4 +345,48 @@ ParseTransfers(snd, rcv, fn, args) ==
 
 \* comparison of an observed / expected result: the class, and the value when it is a value
 SameRes(obs, exp) == obs.cls = exp.cls /\ (exp.cls = "value" => obs.v = exp.v)
+
+\* ------------------------------------------------ the builder as a state machine
+\* txDataBuilder is a mutable object: a function name and a list of ELEMENT TEXTS (what is written between
+\* the separators).  Every appending method hex-encodes the bytes it is given; SetLast stores its text as
+\* it is; Func replaces the name; Clear empties both.  ToString / ToBytes / GetLast only observe.
+B0 == [fn |-> <<>>, es |-> <<>>]
+BPush(st, bytes) == [st EXCEPT !.es = Append(@, HexEncode(bytes))]
+BPushElem(st, e) == BPush(st, ElemBytes(e))
+IntElem(n) == [t |-> "int64", n |-> n]
+StrElem(b) == [t |-> "str", b |-> b]
+BoolElem(v) == [t |-> "bool", n |-> v]
+FnIssue == <<105, 115, 115, 117, 101>>                                             \* "issue"
+FnESDTBurn == <<69, 83, 68, 84, 66, 117, 114, 110>>                          \* "ESDTBurn"
+CanName(w) ==
+  CASE w = "canFreeze" -> <<99, 97, 110, 70, 114, 101, 101, 122, 101>>
+    [] w = "canWipe" -> <<99, 97, 110, 87, 105, 112, 101>>
+    [] w = "canPause" -> <<99, 97, 110, 80, 97, 117, 115, 101>>
+    [] w = "canMint" -> <<99, 97, 110, 77, 105, 110, 116>>
+    [] w = "canBurn" -> <<99, 97, 110, 66, 117, 114, 110>>
+    [] w = "canTransferNFTCreateRole" -> <<99, 97, 110, 84, 114, 97, 110, 115, 102, 101, 114, 78, 70, 84, 67, 114, 101, 97, 116, 101, 82, 111, 108, 101>>
+    [] w = "canAddSpecialRoles" -> <<99, 97, 110, 65, 100, 100, 83, 112, 101, 99, 105, 97, 108, 82, 111, 108, 101, 115>>
+CanNames == {"canFreeze", "canWipe", "canPause", "canMint", "canBurn", "canTransferNFTCreateRole", "canAddSpecialRoles"}
+BOp(st, o) ==
+  CASE o.op = "func" -> [st EXCEPT !.fn = o.f]
+    [] o.op = "elem" -> BPushElem(st, o.e)
+    [] o.op = "true" -> BPushElem(st, BoolElem(1))
+    [] o.op = "false" -> BPushElem(st, BoolElem(0))
+    [] o.op = "setlast" -> IF st.es = <<>> THEN [st EXCEPT !.es = <<o.s>>] ELSE [st EXCEPT !.es[Len(st.es)] = o.s]
+    [] o.op = "clear" -> B0
+    \* the ESDT conveniences: the function name is REPLACED, the arguments are appended to what is there
+    [] o.op = "issue" -> BPushElem(BPushElem(BPushElem(BPushElem([st EXCEPT !.fn = FnIssue], StrElem(o.tok)), StrElem(o.tick)), IntElem(o.sup)), [t |-> "byte", n |-> o.dec])
+    [] o.op = "xfer" -> BPushElem(BPushElem([st EXCEPT !.fn = FnESDTTransfer], StrElem(o.tok)), IntElem(o.val))
+    [] o.op = "xfernft" -> BPushElem(BPushElem(BPushElem([st EXCEPT !.fn = FnESDTNFTTransfer], StrElem(o.tok)), [t |-> "int", n |-> o.nonce]), IntElem(o.val))
+    [] o.op = "burn" -> BPushElem(BPushElem([st EXCEPT !.fn = FnESDTBurn], StrElem(o.tok)), IntElem(o.val))
+    [] o.op = "can" -> BPushElem(BPushElem(st, StrElem(CanName(o.w))), BoolElem(o.v))
+BToString(st) == st.fn \o Cat([i \in 1..Len(st.es) |-> <<AT>> \o st.es[i]])
+BLast(st) == IF st.es = <<>> THEN <<>> ELSE st.es[Len(st.es)]
+\* the states a builder goes through under a sequence of operations (one per operation, after it)
+RECURSIVE BRun(_, _, _)
+BRun(st, ops, i) == IF i > Len(ops) THEN <<>> ELSE LET s2 == BOp(st, ops[i]) IN <<s2>> \o BRun(s2, ops, i + 1)
+\* what the call-data grammar can represent: a non-empty name without '@', every element text valid hex
+BRepresentable(st) == st.fn # <<>> /\ (\A i \in 1..Len(st.fn) : st.fn[i] # AT) /\ (\A i \in 1..Len(st.es) : HexOK(st.es[i]))
+BMeaning(st) == [fn |-> st.fn, args |-> [i \in 1..Len(st.es) |-> HexDecode(st.es[i])]]
+
 =============================================================================
